@@ -22,19 +22,21 @@ from vlib.elf import Elf
 
 
 def spec_strategy():
-    def build(nf, nd, bodies, ptrs, corrupt_pick, corrupt_to):
+    def build(nf, nd, bodies, ptrs, corrupt_pick, corrupt_to, dyn):
         return {"nf": nf, "nd": nd, "bodies": [b[:6] for b in bodies[:nf]], "ptrs": ptrs[:nd],
-                "pick": corrupt_pick, "to": corrupt_to}
-    instr = st.tuples(st.sampled_from(["call", "lea_f", "lea_d", "load_d", "nop"]), st.integers(0, 63))
+                "pick": corrupt_pick, "to": corrupt_to, "dyn": dyn}
+    # call_x: call through the PLT to a function of a helper shared library (only in dynamic programs)
+    instr = st.tuples(st.sampled_from(["call", "lea_f", "lea_d", "load_d", "nop", "call_x", "call_x"]), st.integers(0, 63))
     return st.integers(2, 8).flatmap(lambda nf: st.integers(2, 6).flatmap(lambda nd: st.builds(
         build, st.just(nf), st.just(nd),
         st.lists(st.lists(instr, min_size=1, max_size=6), min_size=nf, max_size=nf),
         st.lists(st.tuples(st.sampled_from(["f", "d"]), st.integers(0, 63)), min_size=nd, max_size=nd),
-        st.integers(0, 10**6), st.integers(0, 10**6))))
+        st.integers(0, 10**6), st.integers(0, 10**6), st.sampled_from([False, True, True]))))
 
 
 # instruction sizes in bytes and the offset of the relocated field inside the instruction
-SIZES = {"call": (5, 1), "lea_f": (7, 3), "lea_d": (7, 3), "load_d": (7, 3), "nop": (1, None)}
+SIZES = {"call": (5, 1), "lea_f": (7, 3), "lea_d": (7, 3), "load_d": (7, 3), "nop": (1, None), "call_x": (5, 1)}
+NX = 4      # functions exported by the helper shared library
 
 
 def gen(spec, nobj=2):
@@ -49,7 +51,13 @@ def gen(spec, nobj=2):
         off = 0
         for (op, t) in spec["bodies"][i]:
             size, fo = SIZES[op]
-            if op == "call":
+            if op == "call_x" and not spec.get("dyn"):
+                op = "nop"
+                size, fo = SIZES[op]
+            if op == "call_x":
+                tgt = f"x{t % NX}"
+                o.append(f"    call {tgt}@PLT\n")
+            elif op == "call":
                 tgt = f"f{(i + 1 + t % (nf - 1)) % nf}" if nf > 1 else "f0"
                 # Calls form a DAG-free graph; the program is never executed, only linked.
                 o.append(f"    call {tgt}\n")
@@ -109,6 +117,13 @@ class C34(Check):
             tools.asm(s, f"o{i}.o", cwd=d)
             objs.append(f"o{i}.o")
         args = objs + ["--gc-sections"]
+        if case.get("dyn"):
+            tools.asm("".join(f"    .globl x{k}\n    .type x{k},@function\nx{k}:\n    mov ${k}, %eax\n    ret\n    .size x{k}, .-x{k}\n"
+                              for k in range(NX)), "x.o", cwd=d)
+            tools.must(tools.link("ld", ["-shared", "-soname", "libx.so", "x.o", "-o", "libx.so"], cwd=d), "helper shared library")
+            # same binding mode and interpreter for both linkers (wild defaults to -z now and emits no PT_INTERP
+            # unless asked), so that the uncorrupted pair is quiet
+            args = ["-dynamic-linker", "/lib64/ld-linux-x86-64.so.2", "-z", "now"] + args + ["libx.so"]
         w = tools.link("wild", args + ["-o", "w.out"], cwd=d, env={"WILD_WRITE_LAYOUT": "1"})
         if w.rc != 0:
             raise Inconclusive(f"wild failed on a trivial program: {w.err[-300:]}")
@@ -120,6 +135,9 @@ class C34(Check):
 
         def diff(file, ref, defaults=True):
             cmd = [ld_diff] + (["--wild-defaults"] if defaults else []) + ["--colour", "never", "--ref", ref, file]
+            if case.get("dyn"):
+                # where the JUMP_SLOT/GLOB_DAT relocations live differs by design; irrelevant for code references
+                cmd[1:1] = ["--ignore", ".dynamic.DT_RELA,.dynamic.DT_RELAENT"]
             r = tools.run(cmd, cwd=d, timeout=60)
             if r.timed_out or r.rc < 0 or "panicked at" in r.err:
                 raise Violation("linker-diff-crash", f"linker-diff crashed/timed out comparing {file} with {ref}: rc={r.rc} {r.err[-300:]}")
@@ -145,6 +163,37 @@ class C34(Check):
         site = sites[case["pick"] % len(sites)]
         kind, holder, foff, fsize, tgt, next_off = site
         hs = e.sym(holder)
+        if kind == "call_x":
+            # A call through the PLT: the reference resolves to a PLT entry, not to a symbol of the executable.
+            # Corruptions: displacements inside the same entry (4, 8, 11), to the neighbouring entries (+-16) and
+            # out of the PLT (+-4096).
+            if hs is None:
+                raise Inconclusive(f"symbol {holder} missing from wild's .symtab")
+            place = hs.value + foff
+            fo = e.vaddr_to_off(place)
+            data = bytearray(open(f"{d}/w.out", "rb").read())
+            old = struct.unpack_from("<i", data, fo)[0]
+            pc = hs.value + next_off
+            oldt = (pc + old) & 0xffffffffffffffff
+            sec = next((x for x in e.sections if x.addr <= oldt < x.addr + x.size and x.size), None)
+            if sec is None or not sec.name.startswith(".plt"):
+                raise Inconclusive(f"call to {tgt} in {holder}+{foff} goes to {oldt:#x} ({sec.name if sec else None}), not into a PLT section")
+            delta = [4, 8, 11, 16, -16, 1, 4096, -4096][case["to"] % 8]
+            struct.pack_into("<i", data, fo, old + delta)
+            with open(f"{d}/bad.out", "wb") as f:
+                f.write(data)
+            os.chmod(f"{d}/bad.out", 0o755)
+            if os.path.exists(f"{d}/w.out.layout"):
+                shutil.copy(f"{d}/w.out.layout", f"{d}/bad.out.layout")
+            r = diff("bad.out", "l.out")
+            ckind = "plt-call-delta:" + ("same-entry" if 0 < delta < 16 else "other-entry" if abs(delta) == 16 else "outside")
+            classes.append(f"corrupt:{ckind}")
+            if r.rc == 0:
+                raise Violation(f"missed-corruption:{ckind}",
+                                f"call to {tgt}@PLT in {holder}+{foff:#x} redirected from {oldt:#x} ({sec.name}) by {delta:+d} bytes; "
+                                f"linker-diff against the GNU ld output reports nothing", {"stdout": r.out[-300:]})
+            return {"nontrivial": True, "key": f"{ckind}/{delta}/{case['nf']}/{core.case_hash(case['bodies'])}", "classes": classes,
+                    "counters": {"equal_pairs_checked": 4, "corruptions_detected": 1}}
         ts = e.sym(tgt)
         if hs is None or ts is None:
             raise Inconclusive(f"symbol {holder}/{tgt} missing from wild's .symtab")
